@@ -5,3 +5,12 @@ cd /verif/work
 for s in "$@"; do ( /verif/bin/otrh $prof $s $n sw_${prof}_$s >/dev/null 2>&1 && /verif/lean/.lake/build/bin/otrm sw_${prof}_$s.ops > sw_${prof}_$s.model 2>/dev/null ) & done
 wait
 for s in "$@"; do echo "seed $s: $(/verif/tools/firstdiff.py sw_${prof}_$s 0 2>&1 | tail -1)"; done
+for s in "$@"; do python3 - "$prof" "$s" <<'PY'
+import json,sys
+m=json.load(open('/verif/work/sw_%s_%s.meta'%(sys.argv[1],sys.argv[2])))
+v=m.get('extra',{}).get('violations',[])
+keys={}
+for x in v: keys[(x.get('property'),x.get('key'))]=keys.get((x.get('property'),x.get('key')),0)+1
+print('seed',sys.argv[2],'oracle hits:',keys, 'checked', m.get('extra',{}).get('oracle_checked'))
+PY
+done
